@@ -36,9 +36,19 @@ Definition bad_vars : list vars :=
     [(B"a", VNum (num_with (Small 5) (Small 0) (BPlain 10)))];     (* zero denominator *)
     [(B"f", VFn (B"x") (EIdent []) ONone)] ].                      (* empty identifier: unwrap on None *)
 
+(* values inside every range the loader checks that fend itself never
+   produces: calendar dates that do not exist, a distribution without outcomes,
+   a number in non-canonical limb-vector form with leading zero limbs.  They
+   are accepted (and evaluation tolerates them today: observed by the C14
+   battery on every run, not proved) *)
+Definition odd_vars : list vars :=
+  [ [(B"a", VDate 2023 4 31)]; [(B"a", VDate 2023 2 30)]; [(B"a", VDate 2023 2 29)];
+    [(B"a", VNum (mkNum [] [] true (BPlain 10) FAuto true))];
+    [(B"a", VNum (num_with (Large [5; 0]) (Large [1; 0; 0]) (BPlain 10)))] ].
+
 (* byte strings the checks replay on every run: the images above, the
    non-well-formed maps as the writer would emit them, the two values that
    did not survive a reload *)
 Definition witness_images : list bytes :=
   [img_closure; img_panic; img_alloc] ++ map ser_vars bad_vars ++
-  [ser_vars [(B"g", w_closure)]; ser_vars [(B"f", w_floor)]].
+  [ser_vars [(B"g", w_closure)]; ser_vars [(B"f", w_floor)]] ++ map ser_vars odd_vars.
